@@ -110,7 +110,7 @@ Proof. exact (@integral_decimal). Qed.
 
 (* ---------------------------------------------------------------- the equality query finds what was written *)
 (* Whenever a write returns -- also for timezone-aware values -- select(col == v) / selectBy(col=v)
-   yields the row.  The only guard left is the engine oracle (outright `true` unless the column is
+   yields the row.  The only guard is the engine oracle (outright `true` unless the column is
    Float / Decimal / Currency or an integer beyond int64 is involved). *)
 Theorem C01_query_finds_partial :
   forall (C : codecs) (T : coltype) (v : pyval) (w : wpath) (var : variant),
@@ -121,6 +121,42 @@ Proof. exact (@query_finds_row). Qed.
 Definition C01_query_finds_full : Prop :=
   forall (C : codecs) (T : coltype) (v : pyval) (w : wpath) (var : variant),
     wf v = true -> o_write (run C T v w var) = Ok tt -> o_found (run C T v w var) = Some (Ok true).
+
+(* fixed 353d81a: the old witnesses of string_id_instance_unquoted now hold -- the instances with the ids
+   '007' and 'abc' are stored as their id and found by the equality query on every write path *)
+Theorem C01_string_id_instance_found :
+  forall C w var,
+    let o := run C TForeignKeyStr inst_007 w var in
+    o_write o = Ok tt /\ o_stored o = SText [48; 48; 55] /\ o_db o = Some (Ok (PStr [48; 48; 55])) /\
+    o_found o = Some (Ok true) /\ o_found (run C TForeignKeyStr inst_abc w var) = Some (Ok true).
+Proof. exact (@string_id_instance). Qed.
+
+(* ---------------------------------------------------------------- alternative input types of the date/time columns
+   norm_spec (Model/Columns.v) is the documented normalisation: a date in a DateTimeCol/TimestampCol is
+   midnight of that day, a datetime in a DateCol its date, in a TimeCol its (naive) time, a timedelta in a
+   TimeCol the time of day when 0 <= delta < 24 h -- and otherwise (negative: Python keeps days = -1; a day
+   or more) it must be refused.  For every such value, on every write path and variant: either all reads
+   (cache before/after the flush, every database read) are that value with its type and the query finds
+   the row, or the write raises Invalid, the column keeps NULL and a create leaves no row. *)
+Theorem C01_alternative_inputs_normalised :
+  forall (C : codecs) (T : coltype) (v : pyval) (w : wpath) (var : variant),
+    wf v = true ->
+    match norm_spec T v with
+    | Some (Ok e) =>
+        let o := run C T v w var in
+        o_write o = Ok tt /\
+        (exists c d, o_cache o = Some (Ok c) /\ o_db o = Some (Ok d) /\
+                     ((e = c \/ pyeq e c = true) /\ pytype c = pytype e) /\
+                     ((e = d \/ pyeq e d = true) /\ pytype d = pytype e)) /\
+        (forall p, o_cache_pre o = Some p ->
+                   exists c', p = Ok c' /\ (e = c' \/ pyeq e c' = true) /\ pytype c' = pytype e) /\
+        o_found o = Some (Ok true)
+    | Some (Raise x) =>
+        o_write (run C T v w var) = Raise x /\ o_stored (run C T v w var) = SNull /\
+        (w = WCreate -> o_row (run C T v w var) = false)
+    | None => True
+    end.
+Proof. exact (@alternative_inputs). Qed.
 
 (* ---------------------------------------------------------------- SQLObject's own text formats, digit by digit
    what the (regenerated) converters write for a datetime, the microsecond fix-up leaves alone and
@@ -187,7 +223,8 @@ Definition ex_codecs : codecs := {|
   jdumps := fun v => if pyval_eqb v j_ex then Ok j_ex_text else Raise E_Type;
   jloads := fun s => if str_eqb s j_ex_text then j_ex else PNone;
   uuid_str := fun n => if n =? 5 then u_ex_text else [];
-  uuid_parse := fun s => if str_eqb s u_ex_text then Ok 5 else Raise E_Value
+  uuid_parse := fun s => if str_eqb s u_ex_text then Ok 5 else Raise E_Value;
+  py_str := fun _ => []
 |}.
 
 Definition hyps_roundtrip (T : coltype) (v : pyval) : bool :=
@@ -215,6 +252,11 @@ Example C01_hyps_json : hyps_roundtrip TJson j_ex = true /\ codec_law ex_codecs 
 Proof. split; [vm_compute; reflexivity|]. exists j_ex_text. repeat split; vm_compute; reflexivity. Qed.
 Example C01_hyps_uuid : hyps_roundtrip TUuid (PUuid 5) = true /\ codec_law ex_codecs TUuid (PUuid 5).
 Proof. split; [vm_compute; reflexivity|]. repeat split; vm_compute; reflexivity. Qed.
+Example C01_hyps_fk_string_id : hyps_roundtrip TForeignKeyStr (PStr [48; 48; 55]) = true /\
+  o_stored (run ex_codecs TForeignKeyStr (PStr [48; 48; 55]) WCreate VNoCache) = SText [48; 48; 55].
+Proof. vm_compute. split; reflexivity. Qed.
+Example C01_hyps_fk_string_instance : hyps_roundtrip TForeignKeyStr inst_abc = true.
+Proof. vm_compute. reflexivity. Qed.
 Example C01_hyps_fk : hyps_roundtrip TForeignKey (PObj 2) = true.
 Proof. vm_compute. reflexivity. Qed.
 
@@ -248,6 +290,14 @@ Example C01_example_float_col_int :
   from_python ex_codecs TFloat (PInt 3) = Ok (PFloat 4613937818241073152) /\
   from_python ex_codecs TFloat (PInt 4) = Raise E_Invalid.
 Proof. vm_compute. split; reflexivity. Qed.
+(* a timedelta in a TimeCol: 1:01:40.000005 is that time; -1 s (days = -1, seconds = 86399) and 24 h are refused *)
+Example C01_example_timedelta :
+  norm_spec TTime (PDelta 0 3700 5) = Some (Ok (PTime 1 1 40 5 false)) /\
+  o_db (run ex_codecs TTime (PDelta 0 3700 5) WCreate VEager) = Some (Ok (PTime 1 1 40 5 false)) /\
+  norm_spec TTime (PDelta (-1) 86399 0) = Some (Raise E_Invalid) /\
+  o_write (run ex_codecs TTime (PDelta (-1) 86399 0) WSetattr VNoCache) = Raise E_Invalid /\
+  o_write (run ex_codecs TTime (PDelta 1 0 0) WSet VLazy) = Raise E_Invalid.
+Proof. vm_compute. repeat split; reflexivity. Qed.
 (* the guards are not vacuous either way *)
 Example C01_guards :
   kind_ok TDateTime dt_aware = false /\ kind_ok TDateTime d_2020_01_02 = true /\
@@ -263,6 +313,8 @@ Print Assumptions C01_time_in_datetime_col_refused.
 Print Assumptions C01_integral_decimal_reads_decimal.
 Print Assumptions C01_decimal_stored_as_real_witness.
 Print Assumptions C01_query_finds_partial.
+Print Assumptions C01_string_id_instance_found.
+Print Assumptions C01_alternative_inputs_normalised.
 Print Assumptions C01_datetime_text_roundtrip.
 Print Assumptions C01_decimal_text_roundtrip.
 Print Assumptions C01_int_beyond_int64_witness.
